@@ -82,10 +82,20 @@ def sym_close():
     return Sym('C?', raw, {5: ('ck', None), 6: ('cn0', ascii_or_nul), 7: ('cn1', ascii_or_nul)})
 
 
+def digit_class(n):
+    """'2' -> (2 digits, each 0..9);  '1<3' -> (1 digit, 0..2)."""
+    n = str(n)
+    if '<' in n:
+        k, top = n.split('<')
+        return int(k), 47 + int(top)
+    return int(n), 57
+
+
 def sym_digits(prefix, n, suffix="'"):
+    n, top = digit_class(n)
     raw = Q(prefix + '0' * n + suffix)
     off = 5 + len(prefix)
-    return Sym(prefix + '#' * n, raw, {off + i: ('dg%d' % i, lambda v: z3.And(z3.UGE(v, 48), z3.ULE(v, 57))) for i in range(n)})
+    return Sym(prefix + '#' * n, raw, {off + i: ('dg%d' % i, lambda v: z3.And(z3.UGE(v, 48), z3.ULE(v, top))) for i in range(n)})
 
 
 def sym_code(body=b''):
@@ -115,6 +125,17 @@ def tmpl(name):
         # qd:<n>:<prefix>  -- a query with n symbolic decimal digits and a closing quote
         _, n, prefix = name.split(':', 2)
         return sym_digits(prefix, int(n))
+    if name.startswith('qdc|'):
+        # qdc|<n>|<prefix>|<suffix>  -- a simple query: prefix, n symbolic decimal digits, suffix
+        _, n, prefix, suffix = name.split('|', 3)
+        return sym_digits(prefix, n, suffix)
+    if name.startswith('pdc|'):
+        # pdc|<n>|<statement name>|<prefix>|<suffix>  -- a Parse whose query text is prefix, n symbolic decimal digits, suffix
+        _, n, sname, prefix, suffix = name.split('|', 4)
+        n, top = digit_class(n)
+        raw = P(sname, prefix + '0' * n + suffix)
+        off = 5 + len(sname) + 1 + len(prefix)
+        return Sym('P(%s)%s%s%s' % (sname, prefix, '#' * n, suffix), raw, {off + i: ('dg%d' % i, lambda v: z3.And(z3.UGE(v, 48), z3.ULE(v, top))) for i in range(n)})
     if name.startswith('dbig:'):
         n = int(name[5:])
         return conc_msg(name, msg('d', bytes((i * 7 + n) % 251 for i in range(n))))
@@ -127,8 +148,9 @@ def tmpl(name):
 
 # ----------------------------------------------------------------------------------------------- one case
 class Case:
-    def __init__(self, names, stop='eof', cut=None, mode='transaction', cache=0, roles=(0,), paused=None, sym_status=False, plugins=False, shards=None, custom=False, params=None, second=None, second_params=None, idle_timeout=False, stmt_timeout=False, shutdown=False, checkout_failures=0):
+    def __init__(self, names, stop='eof', cut=None, mode='transaction', cache=0, roles=(0,), paused=None, sym_status=False, plugins=False, shards=None, custom=False, params=None, second=None, second_params=None, idle_timeout=False, stmt_timeout=False, shutdown=False, checkout_failures=0, regex=False):
         self.names = list(names)
+        self.regex = regex            # shard_id_regex / sharding_key_regex configured (the patterns of the example configuration): routing by comment
         self.stop = stop              # 'eof' | 'X' | 'drop' (the whole socket is gone after the last message: reads hit EOF AND writes fail)
         self.cut = cut                # None or number of bytes of the LAST message delivered before EOF
         self.mode = mode
@@ -161,6 +183,7 @@ class Case:
         s += '' if not self.second else '/then:%s%s' % ('+'.join(self.second), '' if not self.second_params else sorted(self.second_params.items()))
         s += '' if not self.params else '/params:%s' % (sorted(self.params.items()),)
         s += '' if not self.shards else '/shards:%s' % (self.shards,)
+        s += '/comment-routing' if self.regex else ''
         s += ('/plugins' if self.plugins is True else '/plugins:%s' % self.plugins) if self.plugins else ''
         return s
 
@@ -225,6 +248,10 @@ def run_case(chk, ob, ip, prog, case, props, extra_judge=None):
         settings_over = {}
         if case.plugins:
             settings_over['query_parser_enabled'] = BV(1, 1)
+        if case.regex:
+            from mirsym import rx as _rx
+            settings_over['shard_id_regex'] = some(ip_, Opaque('Regex', 'regex', _rx.Compiled(SHARD_ID_RX)))
+            settings_over['sharding_key_regex'] = some(ip_, Opaque('Regex', 'regex', _rx.Compiled(SHARDING_KEY_RX)))
         env = HE.HandleEnv(ip_, prog, bks, sent, client_over=client_over, pool_over=pool_over, paused=(case.paused in ('start', 'start-resume')),
                            pending_at=pend, on_pending=on_pending, settings_over=settings_over,
                            boundaries=[sum(len(mm) for mm in msgs[:k]) for k in range(len(msgs) + 1)],
@@ -284,7 +311,7 @@ def run_case(chk, ob, ip, prog, case, props, extra_judge=None):
             eff = [mm for k, mm in enumerate(complete) if k not in drop]
         customV = []
         if case.custom:
-            eff, customV = custom_reference(data, complete, dec, case.shards or [case.roles])
+            eff, customV = custom_reference(data, complete, dec, case.shards or [case.roles], regex=case.regex)
         V = HE.judge(data, eff, dec, cache_on=bool(case.cache), expect_incomplete=inc, denied=denied, allow_pooler_replies=bool(case.plugins or case.custom),
                      idle_rule=(case.mode == 'transaction' and not case.plugins and not case.custom and eff is complete),
                      stats_rule=('C18' in props and not case.plugins and not case.custom and eff is complete))
@@ -323,7 +350,7 @@ def run_case(chk, ob, ip, prog, case, props, extra_judge=None):
                     body = msgs[:-1] if case.stop == 'X' else msgs
                     cmd['client_hex'] = hexs[:2 * sum(len(x) for x in body)]
                     cmd['eof'] = False
-                mm_ = re.search(r'before reading message (\d+)', text)
+                mm_ = re.search(r'before reading message (\d+)', text) or re.search(r'waits for message (\d+) of its client', text)
                 if mm_:
                     # natively: the client stays connected and silent at that point; SHOW CLIENTS is sampled then
                     upto = sum(len(x) for x in msgs[:int(mm_.group(1))])
@@ -388,6 +415,9 @@ def run_case(chk, ob, ip, prog, case, props, extra_judge=None):
                 cmd.pop('roles', None)
             if case.custom:
                 cmd['custom'] = True
+            if case.regex:
+                cmd['shard_id_regex'] = SHARD_ID_RX
+                cmd['sharding_key_regex'] = SHARDING_KEY_RX
             if case.sym_status:
                 cmd['statuses'] = [model_byte(m, r['status_after']) for r in data['reqs'] if r['bytes'][0].concrete and r['bytes'][0].v == ord('Q')
                                    and r.get('status_after') is not None]
@@ -426,7 +456,7 @@ def run_case(chk, ob, ip, prog, case, props, extra_judge=None):
                                                       [bytes(model_byte(m, b) for b in dm).hex() for dm in (denied_msgs if case.plugins else [])],
                                                       [bytes(model_byte(m, b) for mm in eff for b in mm).hex()] if case.plugins else None,
                                                       [list(rs) for rs in (case.shards or [case.roles])] if case.custom else None,
-                                                      dict(case.params) if case.params is not None else None]})
+                                                      dict(case.params) if case.params is not None else None, bool(case.regex)]})
         if len(ob.samples) < 2:
             ob.samples.append({'script': case.label(), 'outcome': str(data['outcome']), 'events': [str(e) for e in env.events][:8]})
         if case.second and data['outcome'][0] == 'done':
@@ -475,6 +505,8 @@ def run_case(chk, ob, ip, prog, case, props, extra_judge=None):
 
 
 # ----------------------------------------------------------------------------------------------- pooler commands
+SHARD_ID_RX = r'/\* shard_id: (\d+) \*/'
+SHARDING_KEY_RX = r'/\* sharding_key: (\d+) \*/'
 CMD_RX = [
     # (digits only: a signed literal is not in the documented command language -- C13 -- and is ordinary SQL for the server)
     ('SetShardingKey', re.compile(rb"^\s*SET\s+SHARDING\s+KEY\s+TO\s+'?([0-9]+)'?\s*;?\s*$", re.I)),
@@ -488,7 +520,7 @@ CMD_RX = [
 CMD_TAG = {'SetShardingKey': b'SET SHARDING KEY', 'SetShard': b'SET SHARD', 'SetServerRole': b'SET SERVER ROLE', 'SetPrimaryReads': b'SET PRIMARY READS'}
 
 
-def custom_reference(data, script, dec, shard_roles):
+def custom_reference(data, script, dec, shard_roles, regex=False):
     """Reference for the documented pooler commands in a session (transaction pool mode): outside a transaction a simple query
     that IS one of the commands is answered by the pooler (CommandComplete <tag> + ReadyForQuery('I'); SHOW: RowDescription,
     DataRow with the value the preceding SETs established, CommandComplete, ReadyForQuery) and never forwarded; SET SHARD n
@@ -508,10 +540,50 @@ def custom_reference(data, script, dec, shard_roles):
     cmds = []               # (script index, kind, value, expected shard after, expected role after)
     sel_shard, sel_role = None, None
     in_tx = False
+    def concretise(bs):
+        vals = []
+        for b in bs:
+            if b.concrete:
+                vals.append(b.v)
+            else:
+                got = None
+                for d in range(48, 58):
+                    if dec(b.z() == d):
+                        got = d
+                        break
+                if got is None:
+                    raise Inconclusive('symbolic command byte outside the digit class')
+                vals.append(got)
+        return bytes(vals)
+
+    def comment_route(m):
+        # routing by comment (documented for Query and Parse alike): looked for in the first regex_search_limit bytes after the header;
+        # a shard id wins over a sharding key
+        nonlocal sel_shard
+        seg = concretise(m[5:5 + 1000])
+        mm = re.search(SHARD_ID_RX.encode(), seg)
+        if mm:
+            sel_shard = int(mm.group(1))
+            return True
+        mm = re.search(SHARDING_KEY_RX.encode(), seg)
+        if mm and int(mm.group(1)) < (1 << 63):
+            sel_shard = refs.pg_partition_of(int(mm.group(1)), nsh)
+            return True
+        return False
     for k, m in enumerate(script):
         c = HE.code_of(m)
+        if c == 'P' and regex:
+            if not in_tx:
+                comment_route(m)
+            eff.append(m)
+            cmds.append((k, 'stmt', m, sel_shard, sel_role))
+            continue
         if c != 'Q':
             eff.append(m)
+            continue
+        if regex and not in_tx and comment_route(m):
+            eff.append(m)
+            cmds.append((k, 'stmt', m, sel_shard, sel_role))
             continue
         body = m[5:-1]
         # concretise the symbolic digits class by class
@@ -628,7 +700,7 @@ def custom_reference(data, script, dec, shard_roles):
     # (c) routing of the statements that follow
     by_msg = {}
     stmts = [(k, m, sh, ro) for k, kind, m, sh, ro in cmds if kind == 'stmt']
-    creqs = [r for r in data['reqs'] if r.get('origin') == 'client' and HE.code_of(r['bytes']) == 'Q']
+    creqs = [r for r in data['reqs'] if r.get('origin') == 'client' and HE.code_of(r['bytes']) in ('QP' if regex else 'Q')]
     if os.environ.get('HDEBUG'):
         print('  ROUTE', [(k, sh, ro) for k, m, sh, ro in stmts], [(r['backend']) for r in creqs], cmds and [(c[0], c[1], c[3]) for c in cmds])
     for (k, m, sh, ro), r in zip(stmts, creqs):
@@ -895,7 +967,7 @@ def decv(b):
 
 
 @expectation('h_violation')
-def h_violation(prop, key, cache_on, incomplete, hexs, n_before=None, denied_hex=(), eff_hex=None, custom_shards=None, params=None):
+def h_violation(prop, key, cache_on, incomplete, hexs, n_before=None, denied_hex=(), eff_hex=None, custom_shards=None, params=None, regex=False):
     """Native confirmation: the same reference model, evaluated on what the Rust reference backends and the two client
     sockets observed when the concrete script was played against the compiled pgcat."""
     def f(res):
@@ -918,7 +990,7 @@ def h_violation(prop, key, cache_on, incomplete, hexs, n_before=None, denied_hex
         dec = HE.Decider(None)
         customV = []
         if custom_shards:
-            complete, customV = custom_reference(data, complete, dec, custom_shards)
+            complete, customV = custom_reference(data, complete, dec, custom_shards, regex=regex)
         V = HE.judge(data, complete, dec, cache_on=cache_on, expect_incomplete=incomplete,
                      denied=(lambda mm: HE.conc(mm)[:1] in (b'Q', b'P') and any(t and t in HE.conc(mm) for t in dsql)) if dmsgs else None,
                      allow_pooler_replies=bool(eff_hex or custom_shards)) + customV
@@ -964,6 +1036,10 @@ def h_violation(prop, key, cache_on, incomplete, hexs, n_before=None, denied_hex
                 hit = [1] if bad else []
             else:
                 hit = []
+        if prop == 'C18' and key == 'H/server-state':
+            # natively: SHOW SERVERS lists a connection of this pool as active although the client holds none (gone, or idle outside a transaction)
+            busy = r.get('a_result') == 'still-running' and any(decv(rq.get('status_after')) != ord('I') for rq in data['reqs'][-1:])
+            hit = [1] if (not busy and 'active' in (r.get('servers_after_a') or [])) else []
         if prop == 'C18' and key.startswith('H/client-never-unregistered'):
             # natively: the client's task is over but SHOW CLIENTS would still list it
             hit = [1] if (r.get('a_result') != 'still-running' and r.get('clients_after_a')) else []
